@@ -28,8 +28,25 @@ def respects_upper(ast, m):
 
 def gen_cases(ctx, label, n_inst, per_inst, only_domain):
     rng = ctx.rng(label)
-    for _ in range(n_inst):
-        ast = instgen.gen_ast(rng, maxS=4, maxP=3, maxL=3)
+    for it in range(n_inst):
+        if it % 5 == 4:
+            # one or two lecturers for four projects, long first-side lists: a student ranks three or four projects of
+            # the same lecturer
+            ast = instgen.gen_ast(rng, na=3, S=rng.randint(2, 4), P=4, L=rng.randint(1, 2), empty_lists=False)
+            for i, gs in enumerate(ast['first']):
+                have = [p for g in gs for p in g]
+                for p in rng.sample(range(1, 5), 4):
+                    if p not in have and len(have) < 3:
+                        gs.append([p])
+                        have.append(p)
+            # second-side lists must list the new applicants too
+            for k, le in enumerate(ast['lecturers'], 1):
+                listed = [x for g in le[3] for x in g]
+                for s_, gs in enumerate(ast['first'], 1):
+                    if s_ not in listed and any(ast['projects'][p - 1][2] == k for g in gs for p in g):
+                        le[3].insert(rng.randint(0, len(le[3])), [s_])
+        else:
+            ast = instgen.gen_ast(rng, maxS=4, maxP=3, maxL=3)
         text = instgen.render(ast)
         vs = [list(v) for v in vectors(ast)]
         dom = [v for v in vs if respects_upper(ast, v)]
